@@ -30,5 +30,6 @@ Emit == Quiescent =>
                   reqs |-> [k \in DOMAIN reqs |-> [h |-> reqs[k].h, b |-> reqs[k].b, close |-> reqs[k].close, bad |-> reqs[k].bad,
                                                      z |-> ExtraOf(k, Salt).z, mark |-> ExtraOf(k, Salt).mark, many |-> ExtraOf(k, Salt).many]],
                   cuts |-> SetToSortSeq(cuts, <),
-                  model |-> [resp |-> [i \in DOMAIN resp |-> resp[i].k], dropped |-> dropped, fin |-> pc]]))
+                  model |-> [resp |-> [i \in DOMAIN resp |-> IF resp[i].k = 0 THEN 0 ELSE IF reqs[resp[i].k].bad THEN 0 ELSE resp[i].k],     \* 0: an error response, as the harness classifies it
+                             dropped |-> dropped, fin |-> pc]]))
 =============================================================================
